@@ -32,6 +32,16 @@ def cases(draw, tier="quick"):
     env = draw(gen.envs(max_vec=10 if big else 6, max_mat=4 if big else 3))
     g = gen.G(draw, env, gen.Cfg(consts=CONSTS, leaf_const_w=3))
     recipe = g.S(draw(st.integers(1, 5 if big else 4)))
+    if draw(st.integers(0, 11)) == 0:
+        # reductions over a block of a SYMMETRIC matrix that is not symmetric itself
+        n_ = draw(st.integers(3, 4))
+        env["matrices"] = [{"name": "S", "r": n_, "c": n_, "sym": True}]
+        a_ = draw(st.integers(0, n_ - 2))
+        b_ = draw(st.integers(0, n_ - 2))
+        blk = ["msub", ["mvar", "S"] if draw(st.booleans()) else ["T", ["mvar", "S"]], [a_, a_ + 2, None], [b_, b_ + 2, None]]
+        recipe = draw(st.sampled_from([["msum", blk], ["fro", blk], ["msum", ["mbin", "*", blk, ["M", blk], "right"]], ["trace", blk, "method"]]))
+        if draw(st.booleans()):
+            recipe = ["bin", "+", recipe, g.var_leaf()]
     used = sorted(gen.used_vars(recipe, env))
     allv = all_var_names(env)
     if used and draw(st.integers(0, 4)) > 0:
